@@ -14,6 +14,9 @@ def run(chk, tier, scale=1.0):
     jobs = pcommon.hist_jobs(b, n, chk.seed, PROPS, n_events=100, opts=opts, tag="c05")
     res = vcommon.pmap(prun.hist_worker, jobs, chunksize=8)
     prun.fold(chk, "C05", res)
+    # directed scripts around a reload that removes a service which still owes an answer
+    for rs in vcommon.pmap(pcommon.script_worker, pcommon.reload_jobs(b, chk.seed, PROPS, int((160 if tier == "quick" else 4000) * scale), tag="rls5")):
+        prun.fold(chk, "C05", rs)
     chk.rule = ("random histories weighted towards replies: OK / OK <acct[:ts[:serial]]> (63/64/65-byte accounts, trailing words) / NO / AGAIN / MORE / junk / unlinked "
                 "from login, login-ipr, dronecheck and combined services in every order, texts with doubled/leading/trailing spaces, colons and %-directives, "
                 "passwords with every mode string; rules: k text = NO text byte-for-byte in the same step; R iff a login-type service awaited by this instance "
